@@ -352,7 +352,10 @@ def p5(ctx, fx, I):
             d = peel(fv.switch_discr(b))
             if d.kind == "field":
                 d = peel(d.kids[0])
-            if d.kind == "variant" and d.d.get("variant") == "Some" and peel(d.kids[0]).kind == "call" and peel(d.kids[0]).d["term"].get("name") == "next":
+            vals_listed = set(v for (v, _) in t["targets"])
+            char_form = d.kind == "variant" and d.d.get("variant") == "Some" and peel(d.kids[0]).kind == "call" and peel(d.kids[0]).d["term"].get("name") == "next"
+            byte_form = bool(vals_listed) and vals_listed <= {46, 91} and may(d, lambda x: (x.kind == "call" and x.d["term"].get("name") in ("as_bytes", "bytes", "next", "get", "first")) or x.kind == "index")
+            if char_form or byte_form:
                 seps = {}
                 for (v, tgt) in t["targets"]:
                     r = cfg.reachable(f, [tgt])
